@@ -22,7 +22,7 @@ use super::{
 pub fn module_header(input: Input<'_>) -> ParserResult<'_, ModuleHeader> {
     skip_ws_and_comments(into((
         identifier,
-        opt(skip_ws(definitive_identification)),
+        opt(skip_ws_and_comments(definitive_identification)),
         skip_ws_and_comments(delimited(
             tag(DEFINITIONS),
             opt(environments),
@@ -57,14 +57,14 @@ fn unicode_label(input: Input<'_>) -> ParserResult<'_, &str> {
 fn exports(input: Input<'_>) -> ParserResult<'_, Exports> {
     skip_ws_and_comments(delimited(
         tag(EXPORTS),
-        skip_ws(alt((
+        skip_ws_and_comments(alt((
             value(Exports::All, tag(ALL)),
             into(separated_list1(
-                skip_ws(char(COMMA)),
-                skip_ws(alt((parameterized_identifier, identifier))),
+                skip_ws_and_comments(char(COMMA)),
+                skip_ws_and_comments(alt((parameterized_identifier, identifier))),
             )),
         ))),
-        char(SEMICOLON),
+        skip_ws_and_comments(char(SEMICOLON)),
     ))
     .parse(input)
 }
@@ -79,7 +79,14 @@ fn imports(input: Input<'_>) -> ParserResult<'_, Vec<Import>> {
 }
 
 fn parameterized_identifier(input: Input<'_>) -> ParserResult<'_, &str> {
-    terminated(identifier, tag("{}")).parse(input)
+    terminated(
+        identifier,
+        pair(
+            skip_ws_and_comments(char(LEFT_BRACE)),
+            skip_ws_and_comments(char(RIGHT_BRACE)),
+        ),
+    )
+    .parse(input)
 }
 
 fn global_module_reference(input: Input<'_>) -> ParserResult<'_, GlobalModuleReference> {
@@ -134,8 +141,8 @@ fn global_module_reference(input: Input<'_>) -> ParserResult<'_, GlobalModuleRef
 fn import(input: Input<'_>) -> ParserResult<'_, Import> {
     into(skip_ws_and_comments(pair(
         separated_list1(
-            skip_ws(char(COMMA)),
-            skip_ws(alt((parameterized_identifier, identifier))),
+            skip_ws_and_comments(char(COMMA)),
+            skip_ws_and_comments(alt((parameterized_identifier, identifier))),
         ),
         preceded(
             skip_ws_and_comments(tag(FROM)),
